@@ -6,10 +6,10 @@ package main
 import (
 	"fmt"
 	"go/ast"
-	"os"
 	"go/token"
 	"go/types"
 	"math/big"
+	"os"
 	"strings"
 
 	"golang.org/x/tools/go/ssa"
@@ -1149,9 +1149,9 @@ func occurs(a, in *Term) bool {
 // ---------------------------------------------------------------------------- type invariants
 
 type invInst struct {
-	label string
-	t     *Term
-	top   bool // invariant of the root object itself (not of a nested object)
+	label     string
+	t         *Term
+	top       bool // invariant of the root object itself (not of a nested object)
 	composite bool // the object has nested objects that carry invariants of their own (Point, key objects)
 }
 
@@ -1491,9 +1491,11 @@ func (e *Engine) checkCutsAt(st *State, fr *Frame, atReturn bool) {
 						}
 					}
 				}()
+				h0 := len(st.hyps)
 				for _, h := range e.instantiateLemma(env, a) {
 					st.assume(h)
 				}
+				st.markLabel(a.Name, h0)
 			}()
 			continue
 		}
@@ -1523,18 +1525,23 @@ func (e *Engine) checkCutsAt(st *State, fr *Frame, atReturn bool) {
 			c := st.sub(env.boolTerm(a.Expr))
 			if !c.IsConst() && st.pendingFork == nil {
 				st.pendingFork = c
+				st.pendingForkName = a.Name
 			}
 			continue
 		}
 		g := strengthenPtGoal(st.sub(env.boolTerm(a.Expr)), true) // what is proved is what is assumed afterwards
 		if a.Kind == "assert" && len(a.Abstract) == 0 {
 			// intermediate lemma: proved here, then available (nothing is forgotten)
+			e.curFrom = a.From
 			e.addObligation(st, fr, "assert", a.Name, g, a.Text)
+			e.curFrom = nil
+			h0 := len(st.hyps)
 			if strings.Contains(a.Text, "rewrite(") {
 				e.assumeEnsures(st, env, a.Expr, nil, nil) // equations marked rewrite(..) become rules
 			} else {
 				st.assume(g)
 			}
+			st.markLabel(a.Name, h0)
 			continue
 		}
 		e.addObligation(st, fr, a.Kind, a.Name, g, a.Text)
@@ -1567,6 +1574,7 @@ func (e *Engine) checkCutsAt(st *State, fr *Frame, atReturn bool) {
 			continue
 		}
 		// forget everything but entry assumptions and cut lemmas
+		st.labelHyps = nil
 		keep := st.hyps[:st.entryH:st.entryH]
 		st.hyps = append([]*Term{}, keep...)
 		st.hypKeys = map[string]bool{}
